@@ -128,6 +128,15 @@ def handlers : List (String × Handler) := [
         | .error => "error"
       | _, _, _ => "err args"
     | _ => "err args"),
+  -- enum.gql cfg (names) → ok name default name default …   (GraphQLParser.parse_enum: the GraphQL call site)
+  ("enum.gql", fun
+    | [c, ns] => match cfg? c, ns.strs? with
+      | some c, some names => match parseGraphqlEnum pyEnv c names with
+        | .ok ms => "ok" ++ String.join (ms.map fun m => " " ++ encodeStr m.1 ++ " " ++ encD m.2)
+        | .outOfFuel => "fuel"
+        | .error => "error"
+      | _, _ => "err args"
+    | _ => "err args"),
   ("enum.literal", fun
     | [m, ty, vs] => match mode? m, obj? ty vs (.list []) with
       | some m, some o => "ok " ++ b2s (shouldParseAsLiteral m o) ++
